@@ -61,7 +61,8 @@ def run_case(case):
             encs = ["shank"] if kind == "NPultra" else ["shank", "geom"]
             geos = {}
             for enc in encs:
-                rec = G.make(rng, kind=kind, sites=sites, encoding=enc, ns=3, raw=np.zeros((3, n + 1), np.int16), tilde=bool(rng.integers(0, 2)))
+                rec = G.make(rng, kind=kind, sites=sites, encoding=enc, ns=3, raw=np.zeros((3, n + 1), np.int16), tilde=bool(rng.integers(0, 2)),
+                             port_slot=None if (kind in ("NP2.1", "NP2.4", "NPultra") and j % 3 == 1) else (2, 3))     # reduced headers without port / slot fields
                 recs[enc] = rec
                 f = d / f"g{j}_{enc}.ap.meta"
                 f.write_text(rec.meta_text)
